@@ -108,6 +108,19 @@ func Attribute(tr *Trace, v *Violation) []string {
 				}
 			}
 		}
+		// C06 ("removing a relation target never disturbs anything else ... storage retired because its target died and
+		// later reused starts empty"): if the same trace is clean when no entity is removed while it is a relation target,
+		// the mismatch is something a target's death did to the rest of the world.
+		if tr != nil && tr.Plan != nil && v.World == "primary" && !contains(out, "C06") && !tr.Plan.NoTargetDeath && !tr.Plan.TargetsOnly {
+			switch v.Class {
+			case "value", "compset", "query-set", "query-pos", "cache-diff", "batch-diff", "alive-set", "alive-count", "target", "target-census-missing", "handle":
+				alt := cloneTrace(tr)
+				alt.Plan.NoTargetDeath = true
+				if v2, _ := RunTrace(alt, false); v2 == nil {
+					out = append(out, "C06")
+				}
+			}
+		}
 		for _, f := range v.Facts {
 			if strings.HasPrefix(f, "underlying:") {
 				// a mismatch found right after a rejected call keeps the blame of the rejected call's property
@@ -205,6 +218,13 @@ func Attribute(tr *Trace, v *Violation) []string {
 				alt.Steps = dropOps(alt.Steps, "qopen", "lockmax", "lockenum", "sweep")
 				if v2, _ := RunTrace(alt, false); v2 == nil {
 					out = append(out, "C09")
+				}
+			}
+			if !tr.Plan.NoTargetDeath && !tr.Plan.TargetsOnly && !contains(out, "C06") {
+				alt := cloneTrace(tr)
+				alt.Plan.NoTargetDeath = true
+				if v2, _ := RunTrace(alt, false); v2 == nil {
+					out = append(out, "C06")
 				}
 			}
 			if hasOp(tr, "reset") {
